@@ -48,6 +48,7 @@ def check(run):
     run.rule('D3', 'CRC-32C (little-endian) over everything before it, appended last', 30)
     run.rule('D4', 'each distinct cell exactly once; single root at the index the root list names', 60)
     run.trust('CPython ast', 'checker interpreter', 'sa/bocspec.py strict decoder / CRC-32C (boc.tlb, boc.cpp)')
+    small_scope(run, prog, w, 5 if thorough else 3)
     dags = bocrun.dags(thorough)
     big = {'tree341', 'heap255', 'heap256', 'heap257', 'tree85'}
     for name, roots in dags.items():
@@ -98,3 +99,19 @@ def check(run):
         run.fail('D1', 'Cell.to_boc', f'to_boc() with default options: strict decoder rejects the output: {e}', w)
         return
     run.check(good, 'D1', 'Cell.to_boc[defaults]' if not good else 'defaults', 'to_boc() without arguments: no index, no CRC, no cache bits', w)
+
+
+def small_scope(run, prog, where, max_n):
+    """small-scope exhaustive family (quick: <= 3 cells; thorough: up to 5): every DAG shape with <= 3 cells (<= 4 references each), 4 cells (<= 3) and 5 cells (<= 2), two content modes"""
+    from .. import smallscope
+    n, res = smallscope.run_family(prog, 'writer', max_n)
+    run.count('small_scope_dags', n)
+    bad = [r for r in res if r[2] != 'ok']
+    if any(r[2] == 'undecided' for r in res):
+        raise AnalysisError(f'small-scope family: {[r for r in res if r[2] == "undecided"][0]}')
+    run.evaluations += len(res)
+    for tag, opt, st, detail in res:
+        if st == 'ok':
+            run.ok('D1', f'small:{tag}{list(opt)}')
+    for tag, opt, st, detail in bad[:3]:
+        run.fail('D1', 'Cell.to_boc[small-scope DAG]', f'{tag} with options {opt}: {detail}  ({len(bad)} of {len(res)} small-scope cases fail)', where, witness=dict(dag=tag, opt=[str(o) for o in opt]))
